@@ -259,3 +259,45 @@ func (c *Ctx) AddCookieForUpstream(name, value string) { c.Cookies[name] = value
 func (c *Ctx) AppContext() context.Context             { return c.AppCtx }
 func (c *Ctx) SetPipelineError(err error)              { c.PipeErr = err }
 func (c *Ctx) Outputs() map[string]any                 { return c.Out }
+
+// MixedFactory: scripted regular steps, REAL error handler mechanisms created
+// through errorhandlers.CreatePrototype and specialised by WithConfig exactly
+// like the production mechanism factory does.
+type MixedFactory struct {
+	*Factory
+	Protos map[string]errorhandlers.ErrorHandler
+}
+
+// EHSpec describes one real error handler prototype.
+type EHSpec struct {
+	ID, Type string
+	Conf     map[string]any
+}
+
+func NewMixedFactory(f *Factory, ehs []EHSpec) (*MixedFactory, error) {
+	mf := &MixedFactory{Factory: f, Protos: map[string]errorhandlers.ErrorHandler{}}
+
+	for _, s := range ehs {
+		eh, err := errorhandlers.CreatePrototype(nil, s.ID, s.Type, s.Conf)
+		if err != nil {
+			return nil, fmt.Errorf("error handler %s: %w", s.ID, err)
+		}
+
+		mf.Protos[s.ID] = eh
+	}
+
+	return mf, nil
+}
+
+func (f *MixedFactory) CreateErrorHandler(_, id string, conf config.MechanismConfig) (errorhandlers.ErrorHandler, error) {
+	p, ok := f.Protos[id]
+	if !ok {
+		return nil, fmt.Errorf("%w: no error handler %q", heimdall.ErrConfiguration, id)
+	}
+
+	if conf != nil {
+		return p.WithConfig(conf)
+	}
+
+	return p, nil
+}
